@@ -17,6 +17,9 @@ def sym_int(name, ty, st, lo=None, hi=None):
     if hi is not None:
         h = min(h, hi)
     st.defs.append(z3.And(v >= l, v <= h))
+    bnd = dict(st.tags.get("bnd", {}))
+    bnd[v.get_id()] = (v, l, h)
+    st.tags["bnd"] = bnd
     return IV(v, ty)
 
 
